@@ -3,10 +3,13 @@
    sync, unlink, command, linked, synced, unlinked, event).  [enc_envelope] is what ReconEncoder writes
    for a request / notification; [peel_envelope] is peel_envelope_header_str (header matcher + envelope
    peeler) on headers whose slot values are text-like or numeric tokens.
-   Not modelled (no theorem, no harness): the dispatch of a decoded envelope to the agent or to the
-   downlinks registered for its node and lane inside the remote task, the multi-reader fairness between
-   the sources sharing a socket, auth / deauth envelopes, and the web socket framing itself (partial). *)
-From SwimV Require Import Model.Envelope Proofs.EnvelopeProofs.
+   Proofs/SocketDispatchProofs.v: the dispatch inside the socket task (Model/SocketDispatch.v: the
+   node -> lane -> writers tables with their clean-up, the agent routes, the outgoing side) refines a plain
+   list of registrations.
+   Not modelled: the multi-reader fairness between the sources sharing a socket (the harness gives the task
+   time after every message, so each source's order is trivially kept), auth / deauth envelopes, and the web
+   socket framing itself (partial). *)
+From SwimV Require Import Model.Envelope Proofs.EnvelopeProofs Model.SocketDispatch Proofs.SocketDispatchProofs.
 Open Scope N_scope.
 
 (* any kind, any node URI and lane name - including names that need quoting or escaping, empty names,
@@ -26,3 +29,51 @@ Example C11_nonvacuous :
     [64; 99; 111; 109; 109; 97; 110; 100; 40; 110; 111; 100; 101; 58; 34; 47; 97; 32; 98; 34; 44; 108; 97; 110; 101; 58; 108; 41; 32; 49] /\
   peel_envelope (enc_envelope EEvent [] [34] [64; 97]) = Some (EEvent, [], [34], [64; 97]).
 Proof. vm_compute. auto. Qed.
+
+(* ---- dispatch inside the socket task (Model/SocketDispatch.v) ---- *)
+
+(* for every sequence of attachments, departures, arriving and outgoing messages, the deliveries made through the
+   task's two-level tables (with the removal of dead writers, of empty lane entries and of empty node entries)
+   are those of the specification that just keeps the list of registrations *)
+Theorem C11_tables_refine_registrations : forall plane ops,
+  srun plane sock0 ops = spec_run plane ospec0 ops.
+Proof. intros plane ops. exact (socket_tables_refine_registrations plane ops sock0 tinv0). Qed.
+
+(* an arriving response envelope reaches exactly the downlinks attached for its node and lane whose reader is
+   still there, in attachment order, unchanged *)
+Theorem C11_response_reaches_exactly_the_owed : forall plane ops p,
+  let s := sexec plane sock0 ops in
+  s_stopped s = false ->
+  snd (sstep plane s (OInResp p)) = map (fun d => DResp d p) (owed s (p_node p) (p_lane p)).
+Proof. exact response_reaches_exactly_the_owed. Qed.
+
+(* and no other: whoever receives it was attached with that very node and lane *)
+Theorem C11_response_is_not_misdelivered : forall plane ops p d,
+  let s := sexec plane sock0 ops in
+  In (DResp d p) (snd (sstep plane s (OInResp p))) ->
+  In (d, (p_node p, p_lane p)) (s_addr s) /\ memN d (s_gone s) = false.
+Proof. exact response_is_not_misdelivered. Qed.
+
+(* a request envelope goes to the agent of its node, or is answered not-found *)
+Theorem C11_request_goes_to_its_node : forall plane s q, s_stopped s = false ->
+  snd (sstep plane s (OInReq q)) =
+  if memN (q_node q) plane then [DReq (q_node q) q]
+  else match q_kind q with QCommand => [] | _ => [DFrame (FNotFound (q_node q) (q_lane q))] end.
+Proof. exact request_goes_to_its_node. Qed.
+
+(* a frame that is not a valid envelope is never delivered, nor is anything after it *)
+Theorem C11_invalid_frame_is_never_delivered : forall plane s o, s_stopped s = true -> snd (sstep plane s o) = [].
+Proof. exact invalid_frame_is_never_delivered. Qed.
+
+(* what a downlink sends leaves as one frame with its content *)
+Theorem C11_outgoing_messages_leave_unchanged : forall plane s d q,
+  s_stopped s = false -> lookup d (s_addr s) <> None -> memN d (s_gone s) = false ->
+  snd (sstep plane s (ODlSend d q)) = [DFrame (FReq q)].
+Proof. exact outgoing_messages_leave_unchanged. Qed.
+
+(* the clean-up case is reachable: two lanes of one node, the only downlink of one has gone *)
+Theorem C11_cleanup_witness :
+  let p1 := {| p_kind := PEvent; p_node := 1; p_lane := 0; p_body := Some 901 |} in
+  let p2 := {| p_kind := PEvent; p_node := 1; p_lane := 1; p_body := Some 902 |} in
+  srun [] sock0 [OAttach 1 1 0; OAttach 2 1 1; ODrop 1; OInResp p1; OInResp p2] = [[]; []; []; []; [DResp 2 p2]].
+Proof. exact cleanup_witness. Qed.
